@@ -115,6 +115,19 @@ Theorem C41_find_replace_agree : forall repl tpl s ms,
 Proof. exact (fun repl tpl s ms => conj (re_replace_lit_spec repl s ms) (re_replace_tpl_spec tpl s ms)). Qed.
 Print Assumptions C41_find_replace_agree.
 
+(* both together, under the name the design uses *)
+Theorem C41_find_replace_split_agree : forall max p repl tpl s ms,
+  wf_matches s (map pos_of ms) = true ->
+  re_split max p s (map pos_of ms) = re_split_spec max p s (map pos_of ms)
+  /\ re_replace_lit repl s ms = re_replace_spec s (map pos_of ms) (map (fun _ => repl) ms)
+  /\ re_replace_tpl tpl s ms
+     = re_replace_spec s (map pos_of ms) (map (fun m => expand tpl s (m_groups m)) ms).
+Proof.
+  exact (fun max p repl tpl s ms W => conj (re_split_is_spec max p s _ W)
+           (conj (re_replace_lit_spec repl s ms) (re_replace_tpl_spec tpl s ms))).
+Qed.
+Print Assumptions C41_find_replace_split_agree.
+
 (* replacing every match by its own text gives the text back: the gaps and the
    matches tile the text *)
 Theorem C41_gaps_and_matches_tile : forall s ms, wf_matches s ms = true ->
